@@ -9,6 +9,28 @@ ROOT = os.path.dirname(os.path.dirname(os.path.abspath(__file__)))
 
 # id -> (level, technique, text, note, design_ref)
 CHECKS = {
+    "C14": (
+        "exploration",
+        "deterministic simulation: concurrent consumers/workers on one queue with seeded overlapping round trips (and a Redis worker kill + maintenance); ownership oracle over the global event order",
+        "2-4 consumers (same connection or 1-3 separate connections) loop consume/ack/reject/requeue/restart on one queue, and 2-3 "
+        "workers execute always-succeeding jobs (Redis: one worker may be killed, its messages recovered by maintenance after their "
+        "timeout), on all three brokers. From the recorder's global order: between two returns of an id at most one consume() "
+        "returns it, never after its ack; every job executed exactly once (twice only if its first holder was killed); exactly "
+        "one place at the end.",
+        "Samples schedules; latencies up to 20 ms make the take transactions of different consumers overlap. Sensitivity shown against the pre-fix tree (Redis double take, in-memory finish).",
+        "DESIGN.md section 8 C14",
+    ),
+    "C15": (
+        "exploration",
+        "deterministic simulation: single consumer draining a queue fed by a concurrent producer, queue lengths around the Redis fetch window; order oracle on enqueue-return vs delivery sequence numbers",
+        "One consumer (optionally topic-filtered) drains 1-40 same-queue messages of 1-3 priorities while a producer enqueues them "
+        "(before the consumer starts, or keeping the backlog non-empty), foreign topics mixed in, some messages rejected and "
+        "consumed again; Redis window knob 10/2/3. Oracle: A before B whenever enqueue(A) returned before enqueue(B) was called, "
+        "same priority, both matching and not returned; a rejected message comes back before anything enqueued after its return "
+        "(network brokers: after one latency of grace); overtaking depth reported.",
+        "Samples scenarios. Priority interleaving across priorities is not judged (Redis picks the priority order at random by design).",
+        "DESIGN.md section 8 C15",
+    ),
     "C02": (
         "exploration",
         "deterministic simulation: seeded mixes of actor behaviours run concurrently by a real Worker; per-delivery oracle over the recorded broker calls",
